@@ -530,6 +530,82 @@ def laws(rng, tier, ctx):
                 continue
         if msg:
             yield Finding('violation', case, msg)
+    # datetime-like keys the wire cannot spell (review 4 v1 item 5, C11 half; round k1): pd.Timestamp, pd.NaT, np.datetime64 (incl. NaT), np.float32 beside
+    # datetimes, None, NaN.  listby / groupby / their inverses and pivot on the implementation alone, against a grouping by the NORMALISED key (a Timestamp /
+    # datetime64 is the datetime of its instant; every NaT is ONE missing datetime, not None and not NaN).
+    import pandas as pd
+    NAT = ('NaT',)
+
+    def norm(k):
+        if k is pd.NaT or (isinstance(k, np.datetime64) and np.isnat(k)):
+            return NAT
+        if isinstance(k, pd.Timestamp):
+            return k.to_pydatetime()
+        if isinstance(k, np.datetime64):
+            return k.astype('datetime64[us]').astype(datetime.datetime)
+        return k
+
+    def nkeq(a, b):
+        a, b = norm(a), norm(b)
+        return (a is NAT and b is NAT) if (a is NAT or b is NAT) else keq(a, b)
+
+    def pool():
+        return [pd.Timestamp('2020-01-01'), D(2020, 1, 1), pd.NaT, np.datetime64('NaT'), np.datetime64('2020-01-02'), pd.Timestamp('2020-01-02'),
+                D(2020, 1, 2), None, np.float32(0.5), 0.5, float('nan'), 1]
+    for _ in range(60 if tier == 'quick' else 1500):
+        ks = rng.sample(pool(), rng.choice([2, 3, 4, 6]))
+        nrows = rng.choice([1, 2, 3, 5, 8])
+        ka = [rng.choice(ks) for _ in range(nrows)]
+        xa = [rng.choice([0, 1]) for _ in range(nrows)]
+        case = dict(tag='law-datetime-like-keys', lines=['(python: d = dictable(k = %r, x = %r, v = range(%d)); d.listby("k").unlist(); d.groupby("k").ungroup(); d.xyz("x", "k", "v", list))' % (ka, xa, nrows)])
+        count += 1
+        try:
+            d = pyg_base.dictable(k=list(ka), x=list(xa), v=list(range(nrows)))
+            L = guarded(lambda: d.listby('k'))
+            U = guarded(lambda: L.unlist())
+            G = guarded(lambda: d.groupby('k'))
+            R = guarded(lambda: G.ungroup())
+            P = guarded(lambda: d.xyz('x', 'k', 'v', list))
+        except Timeout:
+            yield Finding('violation', case, 'listby / groupby / xyz did not return within its time budget')
+            continue
+        except Exception as e:
+            yield Finding('violation', case, 'listby / unlist / groupby / ungroup / xyz raised %s: %s' % (type(e).__name__, str(e)[:80]))
+            continue
+        classes = []
+        for i in range(nrows):
+            for c in classes:
+                if nkeq(ka[c[0]], ka[i]):
+                    c.append(i)
+                    break
+            else:
+                classes.append([i])
+        want = sorted(classes)
+        msg = None
+        if sorted(list(v) for v in L['v']) != want:
+            msg = 'listby groups the rows as %s, the rows of equal key are %s' % (sorted(list(v) for v in L['v']), want)
+        elif any(not nkeq(L['k'][g], ka[L['v'][g][0]]) for g in range(len(L))):
+            msg = 'a listby key is not the key of its rows'
+        elif sorted(U['v']) != list(range(nrows)) or any(not nkeq(U['k'][j], ka[U['v'][j]]) for j in range(len(U))):
+            msg = 'unlist(listby) does not restore the rows: v = %s' % (list(U['v']),)
+        elif sorted(list(g['v']) for g in G['grp']) != want or sum(len(g) for g in G['grp']) != nrows:
+            msg = 'groupby sub-tables hold the rows %s, the rows of equal key are %s' % (sorted(list(g['v']) for g in G['grp']), want)
+        elif sorted(R['v']) != list(range(nrows)) or any(not nkeq(R['k'][j], ka[R['v'][j]]) for j in range(len(R))):
+            msg = 'ungroup(groupby) does not restore the rows: v = %s' % (list(R['v']),)
+        else:
+            # pivot: the cell of (x, y class) lists exactly the rows with that x and a key of that class, None where there is none
+            # columns read through dict.items: `P[np.datetime64('NaT')]` beside a Timestamp key raises TypeError inside pandas (`Timestamp == datetime64('NaT')`,
+            # reached through `item in self.keys()`, a linear search) - a pandas 3 quirk on a key outside the quantifier, recorded in the notes
+            ycols = [(c, col) for c, col in dict.items(P) if not (isinstance(c, str) and c == 'x')]
+            if len(ycols) != len(classes):
+                msg = 'pivot has %d y columns %r for %d distinct y values' % (len(ycols), [c for c, _ in ycols], len(classes))
+            else:
+                cells = sorted(sorted(c) for j in range(len(P)) for _, col in ycols for c in [col[j]] if c is not None)
+                wantc = sorted(sorted(i for i in c if xa[i] == x) for c in classes for x in set(xa) if any(xa[i] == x for i in c))
+                if cells != wantc:
+                    msg = 'pivot cells hold the rows %s, the (x, y) groups are %s' % (cells, wantc)
+        if msg:
+            yield Finding('violation', case, msg)
     yield count
 
 
